@@ -282,7 +282,7 @@ func cancelAt(p *prepared, c cancelCase, input any, ref *refRun, k int) string {
 		}
 		got := mkItem(v, ctx.N(), 0)
 		if ctx.N() >= k {
-			return fmt.Sprintf("promptness: Next returned %s after %d polls although the context was cancelled at poll %d; the next step must return the context's error", got, ctx.N(), k)
+			return fmt.Sprintf("promptness: Next returned %s after %d polls although the context was cancelled at poll %d; the next step must return the context's error (ctx.Err() = %v)", got, ctx.N(), k, ctx.Err())
 		}
 		if idx >= len(ref.items) {
 			return fmt.Sprintf("prefix: cancelled at poll %d, item #%d %s is not emitted by the uncancelled run (%d items in %d polls)", k, idx, got, len(ref.items), ref.total)
@@ -407,7 +407,7 @@ func tickAt(p *prepared, c tickCase, input any, ref *refRun, n int) string {
 		}
 		got := mkItem(v, 0, h.ticks)
 		if ctx.Hit() {
-			return fmt.Sprintf("promptness: Next returned %s although cancel() had been called inside tick #%d; the next step must return the context's error", got, n)
+			return fmt.Sprintf("promptness: Next returned %s although cancel() had been called inside tick #%d; the next step must return the context's error (ctx.Err() = %v)", got, n, ctx.Err())
 		}
 		if idx >= len(ref.items) {
 			return fmt.Sprintf("prefix: cancel() inside tick #%d: item #%d %s is not emitted by the uncancelled run", n, idx, got)
@@ -519,7 +519,9 @@ func checkOne(c oneCase) string {
 	default:
 		return "bad case: kind"
 	}
+	arm("one-shot", c, "the first call of Next on a one-shot error iterator (it must return its error without running the program)")
 	v, ok, pan := safeNext(it)
+	disarm()
 	if pan != "" {
 		return "first Next panicked: " + pan
 	}
@@ -534,6 +536,8 @@ func checkOne(c oneCase) string {
 	if !isCtxErr && wantSub != "" && !strings.Contains(err.Error(), wantSub) {
 		return fmt.Sprintf("first Next returned error %q; want the %s error mentioning %q", err, c.Kind, wantSub)
 	}
+	arm("one-shot", c, "a further call of Next on a one-shot error iterator")
+	defer disarm()
 	for j := 1; j <= 5; j++ {
 		v, ok, pan := safeNext(it)
 		if pan != "" {
@@ -798,6 +802,13 @@ func inputKey(v *univ.V) string {
 func enumCancel(sub string, p *prepared, base cancelCase, input any, ref *refRun, ks []int, shardOff int, form string) (cancelCase, string) {
 	loop := loops(p, ref.total)
 	key := "c|" + base.Prog + "|" + base.In + "|" + inputKey(base.Input) + "|"
+	// generated programs, thorough tier: only every ntStride-th k enters the
+	// set of distinct cases (the set would not fit otherwise); all are judged
+	ntStride, ntOff := 1, 0
+	if shardOff < 0 && rec.Thorough() {
+		ntStride = 32
+		ntOff = int(evid.Hash(key) % 32)
+	}
 	for _, k := range ks {
 		if shardOff >= 0 && !rec.Mine(shardOff+k) {
 			continue
@@ -810,7 +821,7 @@ func enumCancel(sub string, p *prepared, base cancelCase, input any, ref *refRun
 			c.Via = "query"
 		}
 		rec.Eval()
-		if ntCancel(loop, ref, k) {
+		if ntCancel(loop, ref, k) && k%ntStride == ntOff {
 			rec.NT(key + strconv.Itoa(k))
 		}
 		rec.Class("cancel/at/" + posClass(ref, k))
@@ -842,6 +853,7 @@ func TestC07(t *testing.T) {
 	if rec.ReplayPath() != "" {
 		return
 	}
+	tooMany := func() bool { return rec.Violations() > 6 }
 	mustInput := func(fp fixedProg) (any, *prepared) {
 		input, err := mkInput(fp.in)
 		if err != nil {
@@ -899,12 +911,19 @@ func TestC07(t *testing.T) {
 	}
 	rec.Exhaustive("one-shot iterators: 4 queries x declared 0..4 x given 0..6 variable values (unequal) and the non-compiling queries, x 6 kinds of context", true)
 
+	if tooMany() {
+		return
+	}
+
 	// ------------------------------------------------------------------
 	// (E2) fixed programs calling tick/ticks x cancel() inside every call n
 	tickCap := rec.Scale(3000, 12000)
 	maxNth := rec.Scale(400, 2500)
 	completeT := true
 	for pi, fp := range tickProgs {
+		if tooMany() {
+			return
+		}
 		input, p := mustInput(fp)
 		base := tickCase{Prog: fp.src, In: fp.in, N: tickCap}
 		arm("tick", base, "the reference run (cancelled at poll n+1)")
@@ -999,6 +1018,9 @@ func TestC07(t *testing.T) {
 	}
 
 	// (E4) Next after an emitted error: every error site x every context x guard
+	if tooMany() {
+		return
+	}
 	idx = 0
 	for _, site := range errorSites {
 		for _, e := range site.exprs {
@@ -1026,6 +1048,10 @@ func TestC07(t *testing.T) {
 		}
 	}
 	rec.Exhaustive("Next past the end / past an error value: fixed programs and error sites x contexts x guard forms", true)
+
+	if tooMany() {
+		return
+	}
 
 	// ------------------------------------------------------------------
 	// (E5) fixed looping programs x every cancellation poll, and x every
@@ -1092,8 +1118,8 @@ func TestC07(t *testing.T) {
 			rec.Direct("cancel", c, "%s", msg)
 			complete = false
 		}
-		if rec.Violations() > 6 {
-			break
+		if tooMany() {
+			return
 		}
 	}
 	rec.Exhaustive(fmt.Sprintf("%d fixed looping programs x every cancellation poll k in 1..min(%d, length of the run)+1, x every number of items taken before a cancel between calls", len(fixedProgs), capN), complete)
@@ -1138,7 +1164,7 @@ func TestC07(t *testing.T) {
 		return p, in, true
 	}
 
-	rec.Rapid(t, "tick-gen", rec.Scale(24000, 300000), func(t *rapid.T) {
+	rec.Rapid(t, "tick-gen", rec.Scale(18000, 300000), func(t *rapid.T) {
 		gp, in, ok := drawProgram(t)
 		if !ok {
 			return
@@ -1172,7 +1198,9 @@ func TestC07(t *testing.T) {
 			c.Nth = n
 			c.Ctx = map[bool]string{true: "real", false: "sentinel"}[n%2 == 0]
 			rec.Eval()
-			rec.NT("t|" + src + "|" + inputKey(c.Input) + "|" + strconv.Itoa(n))
+			if !rec.Thorough() || n%4 == 1 {
+				rec.NT("t|" + src + "|" + inputKey(c.Input) + "|" + strconv.Itoa(n))
+			}
 			rec.Class("tick/ctx/" + c.Ctx)
 			arm("tick-gen", c, "the run cancelled inside tick #nth")
 			msg := tickAt(p, c, in, &ref, n)
@@ -1183,7 +1211,7 @@ func TestC07(t *testing.T) {
 		}
 	})
 
-	rec.Rapid(t, "advance-gen", rec.Scale(60000, 800000), func(t *rapid.T) {
+	rec.Rapid(t, "advance-gen", rec.Scale(45000, 800000), func(t *rapid.T) {
 		gp, in, ok := drawProgram(t)
 		if !ok {
 			return
@@ -1233,7 +1261,7 @@ func TestC07(t *testing.T) {
 		}
 	})
 
-	rec.Rapid(t, "cancel-gen", rec.Scale(60000, 700000), func(t *rapid.T) {
+	rec.Rapid(t, "cancel-gen", rec.Scale(45000, 700000), func(t *rapid.T) {
 		gp, in, ok := drawProgram(t)
 		if !ok {
 			return
